@@ -232,11 +232,11 @@ theorem pushScalar_interp (ext : Ext) : ∀ (b : B) (x : SVal) (b' : B) (dt : Da
     obtain ⟨rfl, _⟩ := hs
     simp only [pushScalar] at h
     obtain ⟨bs, hval, h2⟩ := (bind_ok _ _ _).1 h
+    obtain ⟨vp, hp, h2⟩ := (bind_ok _ _ _).1 h2
     obtain ⟨v', h3, h4⟩ := (bind_ok _ _ _).1 h2
     have hv : VLen v views.length := by simp only [WFB] at hwf; exact hwf.1
     obtain ⟨rfl, _⟩ := setValidity_ok hv h3
-    obtain ⟨d, extra, hp, hok, hex⟩ := viewPushValue_exact views buf bs
-    rw [hp] at h4
+    obtain ⟨d, extra, rfl, hok, hex⟩ := viewPushValue_exact hp
     cases h4
     have := row_unique hd (view_push_row hwf bs hok hex hsm)
     subst this
